@@ -144,6 +144,30 @@ def run(run, thorough):
         for k, r in zip(range(1, nmut + 1), sandbox.execute_many(fs) if fs else []):
             if r.get('steps'):
                 judge_crash(run, scn, meta, base['before'], k, nmut, r, 'far-home-trash', plan={'sysfault': [k, 28]})
+    # directed: a daemon re-creates the file (re-opens its log) the instant it has been moved away - after every system call of the run in
+    # turn.  What is in the trash by then stays a complete entry
+    lay = scen.Layout(_random_mod.Random(11), home_on_own_volume=False, nvols=1, nested=False, xdg='unset', uid=0)
+    src = lay.home + '/app.log'
+    scn = lay.scenario([{'cmd': 'put', 'argv': ['--', src], 'now': [2024, 5, 6, 7, 8, 9, 0]}], cwd='/', extra=[['f', src, 'old log']] + scen.canary())
+    meta = {'args': [{'arg': src, 'kind': 'f', 'entry': src, 'expect': 'trash'}], 'fallback': False}
+    base = sandbox.execute(scn)
+    if base.get('steps'):
+        nmut = base['steps'][0].get('nmut', 0)
+        fs = []
+        for k in range(1, nmut + 1):
+            s2 = copy.deepcopy(scn)
+            s2['steps'][0]['plan'] = {'midfs': {'after': k, 'ops': [['write', src, 'a new log, opened by the daemon']]}}
+            fs.append(s2)
+        for k, r in zip(range(1, nmut + 1), sandbox.execute_many(fs) if fs else []):
+            if r.get('steps'):
+                run.count('recreated-source')
+                snap = r['steps'][0]['after']
+                for td in engine.trash_dirs_in(snap):
+                    for name, e in engine.entries_of(snap, td).items():
+                        if e['payload'] is not None and not engine.info_parseable(e['info']):
+                            run.fail('oracle', 'the path was re-created by somebody else right after the move: trash-put left the payload under files/ '
+                                     'without a complete .trashinfo', {'scenario': fs[k - 1], 'trash_dir': td, 'name': esc(name), 'after_mutation': k},
+                                     key='payload-without-info', section='recreated-source')
     # directed: a mount point, named absolutely and relative to the working directory.  rename(2) of a mount point is EBUSY, so a
     # trash-put that does not refuse it degrades to copy + delete of its contents; complete run and every crash point are judged
     for spelled in ['vol1', './vol1', 'vol1/', '/vol1', '/vol1/', '../vol1']:
